@@ -169,7 +169,8 @@ Proof.
   unfold parse_ref. intros ctx [d|] a H; [|discriminate]. exists d.
   destruct (contains "typing." (dt_text d)); [discriminate|].
   destruct (eval ctx (dt_expr d)) as [v|x]; [inversion H; auto|].
-  destruct (derives x NameErrorC); discriminate.
+  destruct (derives x NameErrorC); [discriminate|]. destruct (derives x ExceptionC) eqn:E; [discriminate|].
+  inversion H.
 Qed.
 
 Lemma parse_ref_Ok_intro : forall ctx d a, contains "typing." (dt_text d) = false -> eval ctx (dt_expr d) = Ok a ->
@@ -192,16 +193,13 @@ Proof.
   intros ctx scope e a H1 H2 H. destruct (eval_ctx_scope ctx scope e H1 H2) as [E|E]; congruence.
 Qed.
 
-Lemma parse_B : forall ctx scope od,
-  (forall m, In m ctx -> In m scope) -> (forall m, In m scope -> name_ok m = true) ->
-  (forall d, od = Some d -> evaluable scope d = true) ->
+Lemma parse_B : forall ctx od,
   (exists a, parse_ref ctx od = Ok a) \/ parse_ref ctx od = Raise PDocstringC.
 Proof.
-  intros ctx scope od H1 H2 Hev. unfold parse_ref. destruct od as [d|]; [|now right].
-  specialize (Hev d eq_refl). destruct (contains "typing." (dt_text d)); [now right|].
-  unfold evaluable in Hev. destruct (eval_ctx_scope ctx scope (dt_expr d) H1 H2) as [E|E]; rewrite E.
-  - destruct (eval scope (dt_expr d)) as [v|x]; [left; eauto|]. rewrite Hev. now right.
-  - right. reflexivity.
+  intros ctx od. unfold parse_ref. destruct od as [d|]; [|now right].
+  destruct (contains "typing." (dt_text d)); [now right|].
+  destruct (eval ctx (dt_expr d)) as [v|x] eqn:E; [left; eauto|].
+  destruct (derives x NameErrorC); [now right|]. apply eval_exc in E. unfold exc in E. rewrite E. now right.
 Qed.
 
 (* ---- documented types of a docstring ----------------------------------------------------------------------- *)
@@ -464,57 +462,44 @@ Proof.
 Qed.
 
 (* ---- nothing but PedanticDocstringException ----------------------------------------------------------------------------------- *)
-Lemma loop_B : forall scope doc anns ctx,
-  (forall m, In m scope -> name_ok m = true) ->
-  (forall k t m, In (k, t) anns -> In m (cls_names t) -> In m scope) ->
-  (forall m, In m ctx -> In m scope) ->
+Lemma loop_B : forall doc anns ctx,
   (forall k t, In (k, t) anns -> is_return k = true -> is_none t = false -> d_returns doc <> None) ->
-  doc_evaluable scope doc = true ->
   loop_ref doc ctx anns = Ok tt \/ loop_ref doc ctx anns = Raise PDocstringC.
 Proof.
-  intros scope doc. induction anns as [|[k t] r IH]; intros ctx Hok Hn Hc Hr Hev; [now left|].
+  intros doc. induction anns as [|[k t] r IH]; intros ctx Hr; [now left|].
   cbn [loop_ref].
-  assert (Hc' : forall m, In m (upd t ++ ctx) -> In m scope).
-  { intros m Hm. apply in_app_iff in Hm as [Hm|Hm]; [|auto]. apply (Hn k t m); [now left|now apply upd_names]. }
   assert (IH' : loop_ref doc (upd t ++ ctx) r = Ok tt \/ loop_ref doc (upd t ++ ctx) r = Raise PDocstringC).
-  { apply IH; auto.
-    - intros k0 t0 m H0. apply (Hn k0 t0 m). now right.
-    - intros k0 t0 H0. apply (Hr k0 t0). now right. }
-  unfold doc_evaluable in Hev. rewrite forallb_forall in Hev.
+  { apply IH. intros k0 t0 H0. apply (Hr k0 t0). now right. }
   destruct (is_return k) eqn:K.
   - destruct (is_none t) eqn:N; [assumption|].
     destruct (d_returns doc) as [l|] eqn:R; [|exfalso; eapply (Hr k t); eauto; now left].
     destruct l as [|d [|d' l']]; auto.
-    destruct (parse_B (upd t ++ ctx) scope (Some d) Hc' Hok) as [[a P]|P].
-    { intros d0 E0. inversion E0; subst d0. apply Hev. eapply doc_types_returns; eauto. now left. }
+    destruct (parse_B (upd t ++ ctx) (Some d)) as [[a P]|P].
     + rewrite P. cbn [bind]. destruct (ty_eqb a t); auto.
     + rewrite P. now right.
   - destruct (filter (fun p => String.eqb (fst p) k) (d_params doc)) as [|p ps] eqn:F; [now right|].
-    apply filter_name_head in F as [Hp _].
-    destruct (parse_B (upd t ++ ctx) scope (snd p) Hc' Hok) as [[a P]|P].
-    { intros d E. apply Hev. eapply doc_types_param; eauto. }
+    destruct (parse_B (upd t ++ ctx) (snd p)) as [[a P]|P].
     + rewrite P. cbn [bind]. destruct (ty_eqb t a); auto.
     + rewrite P. now right.
 Qed.
 
-Theorem only_docstring_exception : forall scope req parser ann doc,
-  sig_ok ann = true -> scope_ok scope ann = true -> doc_evaluable scope doc = true ->
+Theorem only_docstring_exception : forall req parser ann doc,
+  sig_ok ann = true ->
   check_ref (mkfc req parser ann doc) = Ok tt \/ check_ref (mkfc req parser ann doc) = Raise PDocstringC.
 Proof.
-  intros scope req parser ann doc Hs Hsc Hev. apply sig_ok_facts in Hs. apply scope_ok_facts in Hsc.
+  intros req parser ann doc Hs. apply sig_ok_facts in Hs.
   unfold check_ref. cbn [mkfc f_ann f_doc].
   destruct (complete_ref_cases ann doc) as [E|E]; rewrite E; cbn [bind]; [|now right].
-  eapply loop_B; try eassumption; [apply Hsc|eapply ann_scope; eauto|intros m []|].
-  intros k t Hin K N. apply is_return_eq in K. subst k.
+  apply loop_B. intros k t Hin K N. apply is_return_eq in K. subst k.
   apply complete_ref_Ok in E as [_ [_ E]]. rewrite (In_assoc ann "return" t (sf_nodup _ Hs) Hin), N in E. exact E.
 Qed.
 
 Theorem inconsistent_rejected : forall scope req parser ann doc,
-  sig_ok ann = true -> scope_ok scope ann = true -> doc_evaluable scope doc = true ->
+  sig_ok ann = true -> scope_ok scope ann = true ->
   ~ consistent scope ann doc -> check_ref (mkfc req parser ann doc) = Raise PDocstringC.
 Proof.
-  intros scope req parser ann doc Hs Hsc Hev Hn.
-  destruct (only_docstring_exception scope req parser ann doc Hs Hsc Hev) as [E|E]; [|assumption].
+  intros scope req parser ann doc Hs Hsc Hn.
+  destruct (only_docstring_exception req parser ann doc Hs) as [E|E]; [|assumption].
   exfalso. apply Hn. eapply accepted_consistent; eauto.
 Qed.
 
@@ -607,31 +592,21 @@ Proof.
     apply complete_fail_check. intros C. apply complete_ref_Ok in C as [_ [C _]]. cbn in C.
     rewrite app_length in *. cbn [List.length] in C. lia.
   - (* rename a parameter *)
-    destruct (consistent_doc_evaluable _ _ _ _ _ Hcons) as [Ev1 Ev2].
     apply (inconsistent_rejected scope); try assumption.
-    + apply doc_evaluable_mk; [|assumption]. intros m d Hin. apply in_app_iff in Hin as [Hin|[Hin|Hin]].
-      * apply (Ev1 m d). apply in_app_iff. now left.
-      * inversion Hin; subst. apply (Ev1 n d). apply in_app_iff. right. now left.
-      * apply (Ev1 m d). apply in_app_iff. right. now right.
-    + intros [_ [_ [Hiff' _]]]. destruct Hcons as [_ [Hnd [Hiff _]]].
-      unfold doc_names in *. cbn [mkdoc d_params] in *. rewrite map_app in *. cbn [map fst] in *.
-      assert (Hn : In n (map fst l1 ++ n' :: map fst l2)).
-      { apply Hiff'. apply Hiff. apply in_app_iff. right. now left. }
-      apply NoDup_remove_2 in Hnd. apply Hnd. apply in_app_iff in Hn as [Hn|[Hn|Hn]]; apply in_app_iff; auto. congruence.
+    intros [_ [_ [Hiff' _]]]. destruct Hcons as [_ [Hnd [Hiff _]]].
+    unfold doc_names in *. cbn [mkdoc d_params] in *. rewrite map_app in *. cbn [map fst] in *.
+    assert (Hn : In n (map fst l1 ++ n' :: map fst l2)).
+    { apply Hiff'. apply Hiff. apply in_app_iff. right. now left. }
+    apply NoDup_remove_2 in Hnd. apply Hnd. apply in_app_iff in Hn as [Hn|[Hn|Hn]]; apply in_app_iff; auto. congruence.
   - (* change one documented type *)
-    destruct (consistent_doc_evaluable _ _ _ _ _ Hcons) as [Ev1 Ev2].
     apply (inconsistent_rejected scope); try assumption.
-    + apply doc_evaluable_mk; [|assumption]. intros m d0 Hin. apply in_app_iff in Hin as [Hin|[Hin|Hin]].
-      * apply (Ev1 m d0). apply in_app_iff. now left.
-      * inversion Hin; subst. assumption.
-      * apply (Ev1 m d0). apply in_app_iff. right. now right.
-    + intros [_ [_ [_ [Hty' _]]]]. destruct Hcons as [_ [_ [_ [Hty0 _]]]]. cbn [mkdoc d_params] in *.
-      destruct (Hty' n (Some d')) as [x' [t' [E' [I' D']]]]; [apply in_app_iff; right; now left|].
-      destruct (Hty0 n (Some d)) as [x [t [E [I D]]]]; [apply in_app_iff; right; now left|].
-      inversion E; inversion E'; subst x x'.
-      apply params_of_In in I as [I _]. apply params_of_In in I' as [I' _].
-      assert (t' = t) by (eapply nodup_fst_unique; [apply SF| |]; eassumption). subst t'.
-      apply H0. eapply same_denotation_of; eauto.
+    intros [_ [_ [_ [Hty' _]]]]. destruct Hcons as [_ [_ [_ [Hty0 _]]]]. cbn [mkdoc d_params] in *.
+    destruct (Hty' n (Some d')) as [x' [t' [E' [I' D']]]]; [apply in_app_iff; right; now left|].
+    destruct (Hty0 n (Some d)) as [x [t [E [I D]]]]; [apply in_app_iff; right; now left|].
+    inversion E; inversion E'; subst x x'.
+    apply params_of_In in I as [I _]. apply params_of_In in I' as [I' _].
+    assert (t' = t) by (eapply nodup_fst_unique; [apply SF| |]; eassumption). subst t'.
+    apply H. eapply same_denotation_of; eauto.
   - (* drop Returns *)
     apply complete_fail_check. intros C. apply complete_ref_Ok in C as [_ [_ C]]. cbn in C.
     destruct (consistent_returns _ _ _ Hcons) as [[R _]|[d [t [R [V D]]]]]; cbn in R; [discriminate|].
@@ -642,27 +617,18 @@ Proof.
     destruct (consistent_returns _ _ _ Hcons) as [[_ V]|[d [t [R _]]]]; [|cbn in R; discriminate].
     destruct (returns_value_cases ann) as [[_ [A|A]]|[t' [E _]]]; [rewrite A in C; discriminate|rewrite A in C; discriminate|congruence].
   - (* alter Returns *)
-    destruct (consistent_doc_evaluable _ _ _ _ _ Hcons) as [Ev1 Ev2].
     apply (inconsistent_rejected scope); try assumption.
-    + apply doc_evaluable_mk; [assumption|]. intros l d0 E Hin. inversion E; subst. destruct Hin as [Hin|[]]. now subst.
-    + intros C. destruct (consistent_returns _ _ _ C) as [[R _]|[x' [t' [R' [V' D']]]]]; cbn in *; [discriminate|].
-      destruct (consistent_returns _ _ _ Hcons) as [[R _]|[x [t [R [V D]]]]]; cbn in *; [discriminate|].
-      inversion R; inversion R'; subst. assert (t' = t) by congruence. subst.
-      apply H0. eapply same_denotation_of; eauto.
+    intros C. destruct (consistent_returns _ _ _ C) as [[R _]|[x' [t' [R' [V' D']]]]]; cbn in *; [discriminate|].
+    destruct (consistent_returns _ _ _ Hcons) as [[R _]|[x [t [R [V D]]]]]; cbn in *; [discriminate|].
+    inversion R; inversion R'; subst. assert (t' = t) by congruence. subst.
+    apply H. eapply same_denotation_of; eauto.
   - (* Returns without a type *)
-    destruct (consistent_doc_evaluable _ _ _ _ _ Hcons) as [Ev1 Ev2].
     apply (inconsistent_rejected scope); try assumption.
-    + apply doc_evaluable_mk; [assumption|]. intros l d0 E Hin. inversion E; subst. contradiction.
-    + intros C. destruct (consistent_returns _ _ _ C) as [[R _]|[x' [t' [R' _]]]]; cbn in *; discriminate.
+    intros C. destruct (consistent_returns _ _ _ C) as [[R _]|[x' [t' [R' _]]]]; cbn in *; discriminate.
   - (* a parameter without a type *)
-    destruct (consistent_doc_evaluable _ _ _ _ _ Hcons) as [Ev1 Ev2].
     apply (inconsistent_rejected scope); try assumption.
-    + apply doc_evaluable_mk; [|assumption]. intros m d0 Hin. apply in_app_iff in Hin as [Hin|[Hin|Hin]].
-      * apply (Ev1 m d0). apply in_app_iff. now left.
-      * inversion Hin.
-      * apply (Ev1 m d0). apply in_app_iff. right. now right.
-    + intros [_ [_ [_ [Hty' _]]]]. cbn [mkdoc d_params] in Hty'.
-      destruct (Hty' n None) as [x' [t' [E' _]]]; [apply in_app_iff; right; now left|]. discriminate.
+    intros [_ [_ [_ [Hty' _]]]]. cbn [mkdoc d_params] in Hty'.
+    destruct (Hty' n None) as [x' [t' [E' _]]]; [apply in_app_iff; right; now left|]. discriminate.
 Qed.
 
 (* ---- the executable form of the specification ----------------------------------------------------------------------------------------------- *)
